@@ -9,7 +9,7 @@ import (
 
 func init() {
 	register("C19", []string{".", "./record", "./wal"}, runC19)
-	propExplain["C19"] = "Decides structural clauses of C19: (S1) in every WAL-reading loop (wal.virtualWALReader.nextRecord, wal.Copy, DB.replayWAL) a read error is tolerated — i.e. the loop continues, moves to the next segment, processes a record or returns success — only on edges that classified it as io.EOF or record.ErrUnexpectedEOF (and, for replay, not under strictWALTail); any other error, in particular the confirmed-corruption sentinels, must be returned; (O1) record.Reader.Next/Read route both invalid-chunk sentinels through read-ahead; (G2) read-ahead reports a benign unclean tail only after reaching EOF and confirms corruption only from a CRC-valid chunk whose synced offset exceeds the invalid offset; (W1) the synced offset advances only in the flush loop after a successful sync. Does not decide which byte patterns are detected."
+	propExplain["C19"] = "Decides structural clauses of C19: (S1) in every WAL-reading loop (wal.virtualWALReader.nextRecord, wal.Copy, DB.replayWAL) a read error is tolerated — i.e. the loop continues, moves to the next segment, processes a record or returns success — only on edges that classified it as io.EOF or record.ErrUnexpectedEOF (and, for replay, not under strictWALTail); any other error, in particular the confirmed-corruption sentinels, must be returned; (O1) record.Reader.Next/Read route both invalid-chunk sentinels through read-ahead; (G2) read-ahead reports a benign unclean tail only after reaching EOF and confirms corruption only from a CRC-valid chunk whose synced offset exceeds the invalid offset; (W1) the synced offset advances only in the flush loop after a successful sync. Shares C18's rules on the chunk reader (what nextChunk may hand out or pass over). Does not decide which byte patterns are detected."
 }
 
 // readErrFlow builds the 'no unresolved read error' obligation-as-fact flow:
@@ -23,7 +23,12 @@ func readErrFlow(c *Ctx, readCalls M, readPred func(ssa.Value) bool) *Flow {
 		Edge("is-unexpected-eof", ErrorsIsGuard("ErrUnexpectedEOF"))
 }
 
-func runC19(c *Ctx) { runC19Core(c) }
+func runC19(c *Ctx) {
+	runC19Core(c)
+	// what nextChunk may hand out or pass over is the other half of "never hidden" (C18's rules
+	// on the chunk reader are shared)
+	runC18Core(c)
+}
 
 func runC19Core(c *Ctx) {
 	// ---- C19.S1 -----------------------------------------------------------
